@@ -13,4 +13,5 @@ var Targets = map[string]core.Target{
 	"C16": C16{},
 	"C17": C17{},
 	"C18": C18{},
+	"C19": C19{},
 }
